@@ -252,6 +252,66 @@ Proof.
 Qed.
 
 
+(* the same addressed by global row: `ids` lists, per rank, the global ids of its local rows of C (the block of pm it
+   owns), so slot li of rank r is global row pfirst pm r + li *)
+Theorem C06_reverse_row_exchange_delivers_global (w : world) (ids colmaps : list (list nat))
+        (A : csc F) (B : csr F) (pk pm pc : list nat) :
+  let tmp := fun s => par_mult_T_tmp F zero add mul smallm small A B pk pm pc s in
+  let tmps := map tmp (seq 0 (length pk)) in
+  let fetchT := fun r i => fetchT_pkg F w colmaps tmps (length (nth r ids [])) r (i - pfirst pm r) in
+  rev_ok w ids colmaps = true -> length w = length pm -> length colmaps = length pk ->
+  (forall r, r < length pm -> nth r ids [] = seq (pfirst pm r) (psize pm r)) ->
+  (forall s, NoDup (nth s colmaps [])) ->
+  (forall r i s, inblk pm r i = true -> s < length pk -> s <> r ->
+     nth i (csr_rows (tmp s)) [] <> [] -> In i (nth s colmaps [])) ->
+  (forall r i, inblk pm r i = true -> ~ In i (nth r colmaps [])) ->
+  forall r i, inblk pm r i = true ->
+    Permutation (fetchT r i) (sentT F zero add mul smallm small A B pk pm pc r i).
+Proof.
+  intros tmp tmps fetchT Hok Hw Hcm Hids Hnd Hcov Hown r i Hin.
+  assert (Hr : r < length pm).
+  { destruct (Nat.lt_ge_cases r (length pm)) as [H|H]; [exact H|].
+    unfold inblk, psize in Hin. rewrite (nth_overflow pm 0 H) in Hin.
+    apply andb_prop in Hin. destruct Hin as [H1 H2]. apply Nat.leb_le in H1. apply Nat.ltb_lt in H2. lia. }
+  assert (Hrange : pfirst pm r <= i < pfirst pm r + psize pm r).
+  { unfold inblk in Hin. apply andb_prop in Hin. destruct Hin as [H1 H2].
+    apply Nat.leb_le in H1. apply Nat.ltb_lt in H2. lia. }
+  unfold fetchT.
+  apply (C06_reverse_row_exchange_delivers w ids colmaps A B pk pm pc r (i - pfirst pm r) i); try assumption.
+  - rewrite Hw. exact Hr.
+  - rewrite (Hids r Hr), seq_length. lia.
+  - rewrite (Hids r Hr), seq_nth by lia. lia.
+  - intros s Hs Hne Hrow. apply (Hcov r i s); assumption.
+  - apply Hown. exact Hin.
+Qed.
+
+(* ... composed: A^T B computed through any such package *)
+Theorem C06_par_mult_T_through_package (w : world) (ids colmaps : list (list nat))
+        (A : csc F) (B : csr F) (pk pm pc : list nat) :
+  let tmp := fun s => par_mult_T_tmp F zero add mul smallm small A B pk pm pc s in
+  let tmps := map tmp (seq 0 (length pk)) in
+  let fetchT := fun r i => fetchT_pkg F w colmaps tmps (length (nth r ids [])) r (i - pfirst pm r) in
+  csc_wf A -> csr_wf B -> csc_nr A = csr_nr B -> psum pm = csc_nc A -> length pm = length pk ->
+  rev_ok w ids colmaps = true -> length w = length pm -> length colmaps = length pk ->
+  (forall r, r < length pm -> nth r ids [] = seq (pfirst pm r) (psize pm r)) ->
+  (forall s, NoDup (nth s colmaps [])) ->
+  (forall r i s, inblk pm r i = true -> s < length pk -> s <> r ->
+     nth i (csr_rows (tmp s)) [] <> [] -> In i (nth s colmaps [])) ->
+  (forall r i, inblk pm r i = true -> ~ In i (nth r colmaps [])) ->
+  let C := par_mult_T F zero add mul smallm small fetchT A B pk pm pc in
+  (forall i j, i < csc_nc A ->
+     denCsr C i j =
+     dropD (sumF (map (fun s =>
+        dropM (sumF (map (fun k => if inblk pk s k then mul (den_csc F zero add A k i) (denCsr B k j) else zero)
+                         (seq 0 (csc_nr A)))))
+        (seq 0 (length pk))))) /\
+  csr_nr C = csc_nc A /\ csr_nc C = csr_nc B /\ csr_wf C.
+Proof.
+  intros tmp tmps fetchT HA HB Hc Hp Hl Hok Hw Hcm Hids Hnd Hcov Hown.
+  apply C06_par_mult_T; try assumption.
+  apply (C06_reverse_row_exchange_delivers_global w ids colmaps A B pk pm pc); assumption.
+Qed.
+
 Theorem C06_par_mult_T_exact_on_integers (isint : F -> Prop) fetchT (A : csc F) (B : csr F) (pk pm pc : list nat) i j :
   isint zero -> (forall x y, isint x -> isint y -> isint (add x y)) ->
   (forall x y, isint x -> isint y -> isint (mul x y)) ->
@@ -285,6 +345,45 @@ Theorem C06_par_galerkin_exact_on_integers (isint : F -> Prop) (A P : csr F) (pa
 Proof.
   intros I0 Ia Im Is1 Is2 HA HP Hc Hn Hpa Hpc Hl IA IP Hi.
   apply (par_galerkin_exact_on_integers F zero one add mul sub opp Fth smallm small isint); assumption.
+Qed.
+
+(* ... and with both exchanges going through packages: the rows of P reach the ranks that need them through the forward
+   row exchange of A's package (w1), the partial-product rows return to the owners of the coarse rows through the
+   reverse row exchange of P's package (w2).  For every pair of packages accepted by the checks of C03 the coarse
+   operator is exactly P^T A P on integer data *)
+Theorem C06_par_galerkin_through_packages_exact_on_integers (isint : F -> Prop)
+        (w1 : world) (ids1 cm1 : list (list nat)) (big : nat) (w2 : world) (ids2 cm2 : list (list nat))
+        (A P : csr F) (pa pc : list nat) i j :
+  isint zero -> (forall x y, isint x -> isint y -> isint (add x y)) ->
+  (forall x y, isint x -> isint y -> isint (mul x y)) ->
+  (forall x, isint x -> smallm x = true -> x = zero) -> (forall x, isint x -> small x = true -> x = zero) ->
+  csr_wf A -> csr_wf P -> csr_nc A = csr_nr P -> csr_nr A = csr_nr P ->
+  psum pa = csr_nr A -> psum pc = csr_nc P -> length pc = length pa ->
+  (forall i k, isint (denCsr A i k)) -> (forall k j, isint (denCsr P k j)) -> i < csr_nc P ->
+  fwd_ok w1 ids1 cm1 big = true -> length (csr_rows P) <= big ->
+  (forall r k, needs F A pa pa r k = true -> r < length w1 /\ In k (nth r cm1 [])) ->
+  let AP := par_mult F zero add mul smallm small (fetch_pkg F w1 ids1 cm1 P pa pc) A P pa pa pc in
+  let tmp := fun s => par_mult_T_tmp F zero add mul smallm small (csr_to_csc P) AP pa pc pc s in
+  let tmps := map tmp (seq 0 (length pa)) in
+  let fetchT := fun r i => fetchT_pkg F w2 cm2 tmps (length (nth r ids2 [])) r (i - pfirst pc r) in
+  rev_ok w2 ids2 cm2 = true -> length w2 = length pc -> length cm2 = length pa ->
+  (forall r, r < length pc -> nth r ids2 [] = seq (pfirst pc r) (psize pc r)) ->
+  (forall s, NoDup (nth s cm2 [])) ->
+  (forall r i s, inblk pc r i = true -> s < length pa -> s <> r ->
+     nth i (csr_rows (tmp s)) [] <> [] -> In i (nth s cm2 [])) ->
+  (forall r i, inblk pc r i = true -> ~ In i (nth r cm2 [])) ->
+  denCsr (par_mult_T F zero add mul smallm small fetchT (csr_to_csc P) AP pa pc pc) i j =
+  sumF (map (fun k => mul (denCsr P k i)
+                          (sumF (map (fun l => mul (denCsr A k l) (denCsr P l j)) (seq 0 (csr_nc A)))))
+            (seq 0 (csr_nr P))).
+Proof.
+  intros I0 Ia Im Is1 Is2 HA HP Hc Hn Hpa Hpc Hl IA IP Hi Hok1 Hbig Hneed AP tmp tmps fetchT
+         Hok2 Hw2 Hcm2 Hids2 Hnd Hcov Hown.
+  apply (par_galerkin_fetch_exact_on_integers F zero one add mul sub opp Fth smallm small isint I0 Ia Im Is1 Is2
+           (fetch_pkg F w1 ids1 cm1 P pa pc) fetchT A P pa pc i j); try assumption.
+  - intros r k Hnk. destruct (Hneed r k Hnk) as [Hr Hk].
+    apply (fetch_pkg_delivers F w1 ids1 cm1 big P pa pc r k Hok1 Hbig Hr Hk).
+  - apply (C06_reverse_row_exchange_delivers_global w2 ids2 cm2 (csr_to_csc P) AP pa pc pc); assumption.
 Qed.
 
 End C06.
@@ -331,6 +430,23 @@ Example C06_par_galerkin_nonvacuous :
                            (sentT Z 0%Z Z.add Z.mul Zsmall Zsmall (csr_to_csc exPc) exPc [1; 1] [1; 0] [1; 0] r i)).
 Proof. split; [reflexivity|intros; apply Permutation_refl]. Qed.
 
+(* A^T B through a package, 2 ranks: A = P = [[1],[-1]] (rows [1;1], its single column owned by rank 0); rank 1's partial
+   product row travels back to rank 0 through the reverse exchange; hypotheses hold, result P^T P = [[2]] *)
+Definition exw2 : world := [mkPkg [] [(1, [0])]; mkPkg [(0, 1)] []].
+Example C06_par_mult_T_through_package_nonvacuous :
+  let A2 := csr_to_csc exPc in
+  let tmp := fun s => par_mult_T_tmp Z 0%Z Z.add Z.mul Zsmall Zsmall A2 exPc [1; 1] [1; 0] [1; 0] s in
+  let fT := fun r i => fetchT_pkg Z exw2 [[]; [0]] (map tmp (seq 0 2)) (length (nth r [[0]; []] [])) r
+                                  (i - pfirst [1; 0] r) in
+  rev_ok exw2 [[0]; []] [[]; [0]] = true /\
+  (forall r, r < 2 -> nth r [[0]; []] [] = seq (pfirst [1; 0] r) (psize [1; 0] r)) /\
+  csr_rows (tmp 1) = [[(0, 1%Z)]] /\
+  csr_rows (par_mult_T Z 0%Z Z.add Z.mul Zsmall Zsmall fT A2 exPc [1; 1] [1; 0] [1; 0]) = [[(0, 2%Z)]].
+Proof.
+  cbv zeta. split; [reflexivity|split; [|split; reflexivity]].
+  intros r Hr. destruct r as [|[|r]]; [reflexivity|reflexivity|lia].
+Qed.
+
 Print Assumptions C06_accumulator_refines_row_spec.
 Print Assumptions C06_mult.
 Print Assumptions C06_mult_stored.
@@ -346,4 +462,7 @@ Print Assumptions C06_par_mult_T_exact_on_integers.
 Print Assumptions C06_par_galerkin_exact_on_integers.
 Print Assumptions C06_row_exchange_delivers_owner_rows.
 Print Assumptions C06_par_mult_through_package.
+Print Assumptions C06_reverse_row_exchange_delivers_global.
+Print Assumptions C06_par_mult_T_through_package.
+Print Assumptions C06_par_galerkin_through_packages_exact_on_integers.
 Print Assumptions C06_reverse_row_exchange_delivers.
